@@ -1256,6 +1256,7 @@ func (in *Interp) lookup(st *State, fr *Frame, x *ssa.Lookup) Value {
 	if st.Thread != 0 {
 		in.access(st, fr, x, m.Obj, nil, false)
 	}
+	in.noteGuardedLookup(st, x.X, m.Obj)
 	elemT := x.X.Type().Underlying().(*types.Map).Elem()
 	var res Value = zeroValue(elemT)
 	found := False
@@ -1306,6 +1307,7 @@ func (in *Interp) mapUpdate(st *State, fr *Frame, x *ssa.MapUpdate) {
 	if st.Thread != 0 {
 		in.access(st, fr, x, m.Obj, nil, true)
 	}
+	in.atomicInsertCheck(st, fr, x, m.Obj)
 	mo := st.Heap[m.Obj].(*MapObj)
 	for i := range mo.Keys {
 		eq := in.keyEq(key, mo.Keys[i])
@@ -1859,4 +1861,78 @@ func (in *Interp) provablyNonNeg(st *State, t *Term) bool {
 	}
 	in.Res.BranchQ++
 	return in.Sol.CheckWith(Lt(t, IntC(0))) == Unsat
+}
+
+// ---- check-then-insert atomicity for maps held in guarded fields ----
+// A map kept in a guarded field (find-or-create tables) may only be inserted into in the critical section in which the
+// same code looked the map up: "look up under the lock, release it, build, lock again and insert" lets two concurrent
+// callers both miss and both insert (the later insert overwrites the earlier object). Every Lock starts a new hold
+// episode of its mutex; a lookup of the guarded map records (mutex, episode) for each mutex held; an insert needs one
+// of the currently held (mutex, episode) pairs among those recorded for this map, and that mutex must be held in write
+// mode (an insert under RLock is not exclusive). Constructors (exempt functions of the
+// guard) and harness code are not checked.
+
+func (in *Interp) guardedMapField(v ssa.Value) (*Guard, string) {
+	if len(in.Cfg.Guards) == 0 {
+		return nil, ""
+	}
+	u, ok := v.(*ssa.UnOp)
+	if !ok || u.Op != token.MUL {
+		return nil, ""
+	}
+	fa, ok := u.X.(*ssa.FieldAddr)
+	if !ok {
+		return nil, ""
+	}
+	g, fname, _ := guardedField(in.Cfg.Guards, fa.X.Type(), fa.Field)
+	return g, fname
+}
+
+func (in *Interp) noteGuardedLookup(st *State, mapVal ssa.Value, obj int) {
+	if obj < 0 {
+		return
+	}
+	if g, _ := in.guardedMapField(mapVal); g == nil {
+		return
+	}
+	if st.MapLook == nil {
+		st.MapLook = map[int]map[[2]int]bool{}
+	}
+	set := st.MapLook[obj]
+	if set == nil {
+		set = map[[2]int]bool{}
+		st.MapLook[obj] = set
+	}
+	for k, held := range st.Mutex {
+		if held {
+			set[[2]int{k, st.LockEp[k]}] = true
+		}
+	}
+}
+
+func (in *Interp) atomicInsertCheck(st *State, fr *Frame, x *ssa.MapUpdate, obj int) {
+	g, fname := in.guardedMapField(x.Map)
+	if g == nil {
+		return
+	}
+	if isVerifFile(in, fr.Fn) {
+		return
+	}
+	for _, e := range g.Exempt {
+		if fr.Fn.Name() == e {
+			return
+		}
+	}
+	in.Res.GuardChecks++
+	for k, held := range st.Mutex {
+		if held && !st.RLocked[k] && st.MapLook[obj][[2]int{k, st.LockEp[k]}] {
+			return
+		}
+	}
+	if st.Spec {
+		panic(specAbort{"guard"})
+	}
+	site := in.posOf(x, fr)
+	in.obligation(st, "lock:insert-not-atomic-with-lookup:"+g.Type+"."+fname+"@"+fr.Fn.Name(), "discipline", site, False,
+		"insert into "+g.Type+"."+fname+" in "+fr.Fn.String()+" outside the critical section in which the map was looked up (check-then-insert is not atomic)")
 }
